@@ -163,6 +163,28 @@ func probeSuite(c Cfg) []Req {
 			Req{Method: "OPTIONS", H: []HV{{hOrigin, []string{o}}, {hACRPN, []string{"true"}}, {hACRH, []string{"x-foo"}}}},
 		)
 	}
+	// header NAMES that are new in the tree under test (dict.go), as request headers saying
+	// "true" / a mined value: on a plain request, an actual request, a preflight, and next to
+	// the private-network request header
+	if nov := dict.tokens.novel; len(nov) > 0 && len(origins) > 0 {
+		k := int(fnv32(c.String()) & 0x7fffffff)
+		o := origins[0]
+		for j := 0; j < min(3, len(nov)); j++ {
+			name := canonicalKey(nov[(k+j)%len(nov)])
+			if name == hOrigin || name == hACRM {
+				continue
+			}
+			val := []string{"true", "true", dict.any.at(k/7 + j)}[j%3]
+			qs = append(qs,
+				Req{Method: "GET", H: []HV{{name, []string{val}}}},
+				Req{Method: "GET", H: []HV{{hOrigin, []string{o}}, {name, []string{val}}}},
+				Req{Method: "POST", H: []HV{{hOrigin, []string{o}}, {name, []string{"true"}}, {hACRPN, []string{"true"}}}},
+				preflight(o, "PUT", nil, false).with(name, val),
+				preflight(o, "GET", nil, true).with(name, "true"),
+				preflight(o, "GET", nil, false).with(name, "false").with(hACRPN, "true"),
+			)
+		}
+	}
 	if len(match) > 0 {
 		o := match[0]
 		// multi-valued Origin / ACRM, as a non-browser client may send
@@ -240,4 +262,16 @@ func fnv32(s string) uint32 {
 		h *= 16777619
 	}
 	return h
+}
+
+func canonicalKey(s string) string {
+	b := []byte(strings.ToLower(s))
+	up := true
+	for i, ch := range b {
+		if up && ch >= 'a' && ch <= 'z' {
+			b[i] = ch - 32
+		}
+		up = ch == '-'
+	}
+	return string(b)
 }
